@@ -68,6 +68,12 @@ def gen_case(r, maxops):
             if ov:
                 ops.append(("override", ov))
     c["ops"] = ops or [("discharge",)]
+    if r.random() < 0.2:
+        # used, re-initialised (Sewer.reinit / Storage.reinit, what Model.reinit calls), used again
+        k = r.randint(1, len(c["ops"]))
+        more = [("pushta", K.push_amount(r, part, cap)) if r.random() < 0.45 else r.choice([("end", F(r.choice([5, 12, 20]))), ("end", F(20)), ("discharge",)])
+                for _ in range(r.randint(2, maxops))]
+        c["ops"] = c["ops"][:k] + [("reinit",)] + more
     return c
 
 
@@ -130,6 +136,8 @@ class Run:
                 h.end_timestep()
                 for arc, nb in self.outs + self.ins:
                     arc.end_timestep()
+            elif k == "reinit":
+                h.reinit()
             elif k == "override":
                 ov = {}
                 if "cap" in op[1]:
@@ -193,6 +201,8 @@ def expr(c):
             ops.append("YDischarge")
         elif k == "end":
             ops.append(f"YEnd {C.qlit(op[1])}")
+        elif k == "reinit":
+            ops.append(f"YReinit {C.vlit(c['init'])}")
         elif k == "override":
             cur.update(op[1])
             ops.append(f"YOverride {C.qlit(cur['cap'])} {cur['pt']}%nat {lit_ta(cur['ta'])}")
